@@ -259,7 +259,9 @@ def main():
         "setup_cmd": "./bin/setup",
         "hooks": {
             "guard": "dinfuehr_dora_verif",
-            "enable": "RUSTFLAGS=\"--cfg dinfuehr_dora_verif\" with CARGO_TARGET_DIR=/verif/.build/sched (done by the checks that need it)",
+            "enable": "RUSTFLAGS='--cfg dinfuehr_dora_verif --cfg dinfuehr_dora_verif=\"sched\"' (CARGO_TARGET_DIR=/verif/.build/sched: sync shim + re-exports, loom harness) or "
+                      "'--cfg dinfuehr_dora_verif --cfg dinfuehr_dora_verif=\"inject\"' (/verif/.build/inject: collection-point injection in Gc::alloc); "
+                      "set by the checks that need them (C04 C09 C12 / C03)",
             "baseline_off_cmd": "cd /repo && cargo test --workspace --no-fail-fast --offline",
             "source_commits": hooks_commits,
             "add_only": True,
